@@ -49,6 +49,7 @@ type Tr struct {
 	optRet  bool            // the function being translated may panic: results are wrapped in Option
 	panics  map[string]bool // func key -> translated with an Option result
 	imports map[string]bool // extra Lean imports needed by the generated file
+	frag    *fragCtx        // non-nil while a function fragment is translated (frag.go)
 }
 
 // extType maps the few standard-library value types that have a hand-written Lean model
@@ -472,6 +473,11 @@ func (t *Tr) expr(e ast.Expr) string {
 	if tv, ok := t.info().Types[e]; ok && tv.Value != nil {
 		return t.constLit(tv, e.Pos())
 	}
+	if t.frag != nil {
+		if n, ok := t.frag.opaqueParam(t, e); ok {
+			return n
+		}
+	}
 	switch x := e.(type) {
 	case *ast.ParenExpr:
 		return t.expr(x.X)
@@ -487,6 +493,9 @@ func (t *Tr) expr(e ast.Expr) string {
 		case *types.Var:
 			if o.Parent() == o.Pkg().Scope() {
 				return t.globalVar(o, x.Pos())
+			}
+			if t.frag != nil {
+				t.frag.freeVar(t, o)
 			}
 			return t.nameOf(o)
 		case *types.Nil:
@@ -961,6 +970,10 @@ func (t *Tr) stmts(ss []ast.Stmt, d int) string {
 		return ind(d) + t.retNamed(token.NoPos)
 	}
 	s, rest := ss[0], ss[1:]
+	if t.frag != nil && t.frag.skip[srcText(t.l, s)] {
+		t.frag.skipped[srcText(t.l, s)] = true
+		return t.stmts(rest, d)
+	}
 	switch x := s.(type) {
 	case *ast.ReturnStmt:
 		if len(x.Results) == 0 {
@@ -968,6 +981,9 @@ func (t *Tr) stmts(ss []ast.Stmt, d int) string {
 		}
 		var rs []string
 		for i, r := range x.Results {
+			if t.frag != nil && t.frag.dropResult(i) {
+				continue
+			}
 			v := t.expr(r)
 			// implicit conversion of untyped constants handled by constLit typing; an untyped nil
 			// returned as an `error` result is "no error"
@@ -1277,6 +1293,9 @@ func (t *Tr) Func(p *Pkg, fd *ast.FuncDecl, leanName string) string {
 	t.inProg[key] = true
 	saved := t.save()
 	savedOpt := t.optRet
+	savedFrag := t.frag // a callee of a fragment is translated as an ordinary function
+	t.frag = nil
+	defer func() { t.frag = savedFrag }()
 	t.curPkg = p
 	t.curFn = sig
 	t.names = map[types.Object]string{}
